@@ -154,7 +154,7 @@ func (m *Module) startCtrlFn(name string, fn func() error) chan error {
 	// If no function is given, still act as if it was run.
 	if fn == nil {
 		// Signal finish.
-		m.ctrlFuncRunning.UnSet()
+		m.ctrlFuncRunning.end(m.ctrlFuncRunning.begin())
 		m.checkIfStopComplete()
 
 		// Report nil error and return.
@@ -163,7 +163,7 @@ func (m *Module) startCtrlFn(name string, fn func() error) chan error {
 	}
 
 	// Signal that a control function is running.
-	m.ctrlFuncRunning.Set()
+	invocation := m.ctrlFuncRunning.begin()
 
 	// Start control function in goroutine.
 	go func() {
@@ -179,7 +179,7 @@ func (m *Module) startCtrlFn(name string, fn func() error) chan error {
 
 			// Signal finish.
 			verifPoint("ctrl.done", m)
-			m.ctrlFuncRunning.UnSet()
+			m.ctrlFuncRunning.end(invocation)
 			verifPoint("ctrl.unset", m)
 			m.checkIfStopComplete()
 		}()
